@@ -1,3 +1,427 @@
-/- C11: property theorems (stub, not yet built) -/
+/-
+C11 — Cluster state equals a fresh recomputation from the API.
+
+Property theorems only (helper lemmas live in `Karp/Proofs/ClusterState*.lean`).
+Model: `Karp/Model/ClusterState.lean` (state.Cluster, StateNode, NodePoolState, HostPortUsage, VolumeUsage and the
+       three informer controllers; the recorded defects are switches `Fixes`, `Fixes.current` is read off the source).
+Spec:  `Karp/Spec/ClusterAbs.lean` (from-scratch computation from the API objects + ghost marks).
+
+Vocabulary: a history is a list of `Event`s — API changes (`setNode` …), reconcile deliveries (`recNode` … : the informer
+controller of that kind reads the API as it is at that moment), and in-memory marks. `run fx {} {} h` runs the model of the
+cache from the empty state (`fx` = which recorded defects are repaired), `apiRun {} h` is the API at the end, `ghostRun {} {} h`
+the specification's ghost (marks, observed snapshot, set of keys changed since their last reconcile).
+-/
+import Karp.Proofs.ClusterStateClosed
+
 namespace Karp.C11
+open Karp.ClusterState Karp.Spec.ClusterAbs
+open Karp.Gen.ClusterStateFacts
+
+/-! ## Fact expectations over the regenerated tables -/
+
+/-- the fields of `StateNode`; a new field has to be placed in every table below before this builds again -/
+theorem fact_stateNode_fields :
+    stateNodeFields = ["Node", "NodeClaim", "daemonSetRequests", "daemonSetLimits", "podRequests", "podLimits",
+      "podDisruptionCosts", "hostPortUsage", "volumeUsage", "markedForDeletion", "nominatedUntil"] := by decide
+
+/-- the aggregates derived from the pods bound to the node -/
+def perPodFields : List String :=
+  ["daemonSetRequests", "daemonSetLimits", "podRequests", "podLimits", "podDisruptionCosts", "hostPortUsage", "volumeUsage"]
+
+/-- `updateForPod` writes exactly the per-pod aggregates … -/
+theorem fact_updateForPod_fields : updateForPodFields.all perPodFields.contains ∧ perPodFields.all updateForPodFields.contains := by decide
+/-- … and `cleanupForPod` removes the pod from every one of them -/
+theorem fact_cleanup_covers_update : updateForPodFields.all cleanupForPodFields.contains := by decide
+
+/-- `ShallowCopy` copies every field -/
+theorem fact_shallowCopy_total : shallowCopyFields = stateNodeFields := by decide
+
+/-- `newStateFromNode` takes the Node from its argument, carries NodeClaim / mark / nomination from the old state node and
+    REBUILDS every per-pod aggregate (`podDisruptionCosts` is created lazily by `updateForPod`) -/
+theorem fact_node_constructor :
+    newStateFromNodeLit.lookup "Node" = some "arg" ∧
+    newStateFromNodeFields = ["NodeClaim", "markedForDeletion", "nominatedUntil"] ∧
+    perPodFields.all (fun f => newStateFromNodeLit.lookup f = some "fresh" || (f = "podDisruptionCosts" && newStateFromNodeLit.lookup f = none)) := by
+  decide
+
+/-- `newStateFromNodeClaim` takes the NodeClaim from its argument and carries every other field from the old state node —
+    full strength would be `stateNodeFields.all (fun f => f = "NodeClaim" || newStateFromNodeClaimFields.contains f)`;
+    at the pinned commit `podDisruptionCosts` is missing (known finding C11-disruption-cost-lost-on-claim-update), so the
+    expectation allows exactly that one exception (it keeps holding once the repair is applied). -/
+theorem fact_claim_constructor_partial :
+    newStateFromNodeClaimLit.lookup "NodeClaim" = some "arg" ∧
+    (stateNodeFields.filter (fun f => f ≠ "NodeClaim" && !newStateFromNodeClaimFields.contains f)).all (· = "podDisruptionCosts") := by
+  decide
+
+/-- the in-memory mark and the nomination survive both kinds of update -/
+theorem fact_marks_carried :
+    Cluster.carriedN "markedForDeletion" = true ∧ Cluster.carriedN "nominatedUntil" = true ∧ Cluster.carriedN "NodeClaim" = true ∧
+    (∀ fx, Cluster.carriedC fx "markedForDeletion" = true) ∧ (∀ fx, Cluster.carriedC fx "nominatedUntil" = true) ∧
+    (∀ fx, Cluster.carriedC fx "Node" = true) :=
+  ⟨carriedN_marked, carriedN_nominated, carriedN_claim, carriedC_marked, carriedC_nominated, carriedC_node⟩
+
+/-- call orders the model follows -/
+theorem fact_call_orders :
+    newStateFromNodeCalls = ["populateResourceRequests", "populateVolumeLimits", "cleanupNode", "updateNodePoolResources"] ∧
+    newStateFromNodeClaimCalls = ["cleanupNodeClaim", "updateNodePoolResources"] ∧
+    populateCalls = ["IsTerminal", "updateForPod", "cleanupOldBindings"] ∧
+    volumeUsageDeleteCalls = ["Insert"] := by decide
+
+/-! ## Per-NodePool resource totals (every history, every delivery order, no precondition) -/
+
+/-- **C11_poolResources_invariant** — after ANY history (any order of deliveries, duplicates, provider-id changes,
+    deletions seen before updates; with or without the repairs), `NodePoolResourcesFor(p)` is exactly the sum, over the
+    state nodes the cache currently holds, of what each contributes to pool `p` (its capacity plus one node, nothing when
+    it is marked for deletion), and the cache never holds two state nodes under one provider id. -/
+theorem C11_poolResources_invariant (fx : Fixes) (h : List Event) (c : Cluster) (api : Api)
+    (hr : run fx {} {} h = .ok (c, api)) (p : String) :
+    Map.getD c.poolRes p Res.zero = poolSum c.nodes p ∧ Map.NoDup c.nodes :=
+  have := run_poolInv fx h {} c {} api poolInv_empty hr
+  ⟨this.sum p, this.nodup⟩
+
+/-! ## Well-formed histories -/
+
+/-- The preconditions of the property:
+    * `owned`: provider ids are unique — over the whole history a provider id belongs to one node name and one claim name
+      (`w` names the owner), node names are non-empty, and whether a claim name belongs to this provider never changes;
+    * `steps`: a Node version the cache ignores (no provider id / instance type yet) is never observed while an earlier
+      tracked version of that name is still cached, and a NodeClaim observed with a provider id is never observed without
+      one later (claim names are generated, never reused). Both are decidable on the history (`wRun`). -/
+structure WellFormed (w : Owners) (h : List Event) : Prop where
+  owned : ∀ e ∈ h, w.okEvent e
+  steps : wRun {} {} h = true
+
+/-- **C11_no_nil_dereference** — on a well-formed history the cache never dereferences a missing state node
+    (`cleanupNode` / `cleanupNodeClaim`): the run completes. (With duplicate provider ids it can: see `C11_duplicate_ids_panic`.) -/
+theorem C11_no_nil_dereference (fx : Fixes) (w : Owners) (h : List Event) (hwf : WellFormed w h) :
+    ∃ c, run fx {} {} h = .ok (c, apiRun {} h) := by
+  obtain ⟨c, _, hr, _⟩ := run_oinv fx w h {} {} {} {} (OC.Eqv.refl _) (oinv_empty w) (apiOK_empty w) hwf.owned hwf.steps
+  exact ⟨c, hr⟩
+
+/-- **C11_objects_converge** — for every well-formed history (any delivery order, duplicates, provider-id changes,
+    deletions seen before updates), once every changed object has been reconciled (`dirty = []`) the cache holds, under
+    every provider id, exactly what the from-scratch computation yields: the latest Node and the latest NodeClaim that
+    carry this id (no state node if there is neither), with the in-memory deletion mark and nomination of the ghost.
+    Holds with and without the repairs (`fx` arbitrary). -/
+theorem C11_objects_converge (fx : Fixes) (w : Owners) (h : List Event) (hwf : WellFormed w h)
+    (hq : (ghostRun {} {} h).dirty = []) :
+    ∃ c, run fx {} {} h = .ok (c, apiRun {} h) ∧
+      ∀ pid, (Map.get c.nodes pid).map SNode.objs = (absNodeAt (apiRun {} h) (ghostRun {} {} h) pid).map absObjs := by
+  obtain ⟨c, o, hr, he, hi, ha⟩ := run_oinv fx w h {} {} {} {} (OC.Eqv.refl _) (oinv_empty w) (apiOK_empty w) hwf.owned hwf.steps
+  refine ⟨c, hr, fun pid => ?_⟩
+  rw [← get_proj, he.nodes pid]
+  exact quiescent_objects hi ha (apiND_run h {} apiND_empty) hq pid
+
+/-- **C11_claim_names_converge** — under the same hypotheses `NodeClaimExists` / `UnlaunchedNodeClaimExists` answer as the
+    API does: a claim name is known iff a NodeClaim of this provider with that name exists, and it is "unlaunched" iff
+    that claim has no provider id. -/
+theorem C11_claim_names_converge (fx : Fixes) (w : Owners) (h : List Event) (hwf : WellFormed w h)
+    (hq : (ghostRun {} {} h).dirty = []) :
+    ∃ c, run fx {} {} h = .ok (c, apiRun {} h) ∧
+      ∀ name, Map.has c.claimNameToPid name = absClaimExists (apiRun {} h) name ∧
+              decide (Map.get c.claimNameToPid name = some "") = absClaimUnlaunched (apiRun {} h) name := by
+  obtain ⟨c, o, hr, he, hi, ha⟩ := run_oinv fx w h {} {} {} {} (OC.Eqv.refl _) (oinv_empty w) (apiOK_empty w) hwf.owned hwf.steps
+  refine ⟨c, hr, fun name => ?_⟩
+  have hcn : c.claimNameToPid = o.cn := he.cn
+  have hc := hi.cc name (by rw [hq]; simp)
+  unfold ClaimCons at hc
+  unfold absClaimExists absClaimUnlaunched
+  rw [hcn, Map.has_eq]
+  cases hg : Map.get (apiRun {} h).claims name with
+  | none => rw [hg] at hc; dsimp only at hc ⊢; rw [hc]; simp
+  | some cl =>
+    rw [hg] at hc; dsimp only at hc ⊢
+    by_cases hm : cl.managed = true
+    · rw [if_pos hm] at hc
+      rw [hc.1, hm]
+      simp
+    · rw [if_neg hm] at hc
+      have : cl.managed = false := by
+        cases hx : cl.managed with
+        | true => exact absurd hx hm
+        | false => rfl
+      rw [hc, this]; simp
+
+/-- **C11_node_reads_converge** — consequently everything the exported accessors derive from the objects agrees with the
+    from-scratch node: `Labels()[nodepool]`, `Name()`, `Registered()`, `Initialized()`, `Capacity()`, `Deleted()`,
+    `MarkedForDeletion()` and `Nominated()`. -/
+theorem C11_node_reads_converge (fx : Fixes) (w : Owners) (h : List Event) (hwf : WellFormed w h)
+    (hq : (ghostRun {} {} h).dirty = []) :
+    ∃ c, run fx {} {} h = .ok (c, apiRun {} h) ∧
+      ∀ pid s a, Map.get c.nodes pid = some s → absNodeAt (apiRun {} h) (ghostRun {} {} h) pid = some a →
+        s.pool = a.pool ∧ s.name = a.name ∧ s.registered = a.registered ∧ s.initialized = a.initialized ∧
+        s.capacity = a.capacity ∧ s.deleted = a.deleted ∧ s.markedForDeletion = a.markedForDeletion ∧ s.nominated = a.nominated := by
+  obtain ⟨c, hr, hobjs⟩ := C11_objects_converge fx w h hwf hq
+  refine ⟨c, hr, ?_⟩
+  intro pid s a hs ha
+  have := hobjs pid
+  rw [hs, ha] at this
+  simp only [Option.map_some, Option.some.injEq] at this
+  have hr := snode_reads_abs s a this
+  exact ⟨hr.1, hr.2.2.2.1, hr.2.2.2.2.1, hr.2.2.2.2.2.1, hr.2.2.1, hr.2.2.2.2.2.2.1, hr.2.1, congrArg Objs.nominated this⟩
+
+/-- **C11_poolResources_converge** — and the per-NodePool resource totals (`NodePoolResourcesFor`) equal the from-scratch
+    totals: Σ capacity (+ one node) over the state nodes of the pool that are not marked for deletion. -/
+theorem C11_poolResources_converge (fx : Fixes) (w : Owners) (h : List Event) (hwf : WellFormed w h)
+    (hq : (ghostRun {} {} h).dirty = []) :
+    ∃ c, run fx {} {} h = .ok (c, apiRun {} h) ∧
+      ∀ p, Map.getD c.poolRes p Res.zero = absPoolRes (apiRun {} h) (ghostRun {} {} h) p := by
+  obtain ⟨c, hr, hobjs⟩ := C11_objects_converge fx w h hwf hq
+  exact ⟨c, hr, fun p => quiescent_poolRes (run_poolInv fx h {} c {} _ poolInv_empty hr) hobjs p⟩
+
+/-! ## Per-node aggregates (requests, limits, daemonset requests, disruption cost, host ports, volume usage) -/
+
+/-- **C11_aggregates_track_pods** — after ANY sequence of `updateForPod` / `cleanupForPod` on a state node (any pods, any
+    order, the same pod name re-added with other content any number of times; a pod name is either always a DaemonSet pod or
+    never), the seven per-pod aggregates are exactly the images of ONE table of pods — the last update per pod name unless a
+    cleanup followed (`Agg`): `podRequests[k]`/`podLimits[k]`/`hostPortUsage[k]`/`volumeUsage.podVolumes[k]` for every pod of the
+    table, `daemonSetRequests/Limits[k]` for its DaemonSet pods, `podDisruptionCosts[k]` for its non-daemon pods with positive
+    eviction cost, and nothing for any other key; `volumeUsage.volumes` contains every volume of the table.
+    With the repaired `VolumeUsage.Add` it contains nothing else (`VolExact`); at the pinned commit it can
+    (`C11_volume_union_stale_witness`), and is exact again after any `cleanupForPod`. -/
+theorem C11_aggregates_track_pods (fx : Fixes) (dsOf : String → Bool) (ops : List PodOp)
+    (hds : ∀ p, PodOp.upd p ∈ ops → dsOf p.name = p.ds) :
+    Agg (ops.foldl (applyPodOp fx) SNode.new) (ops.foldl tablePodOp []) ∧ TableOK dsOf (ops.foldl tablePodOp []) ∧
+    (fx.volRebuild = true → VolExact (ops.foldl (applyPodOp fx) SNode.new) (ops.foldl tablePodOp [])) :=
+  podOps_agg fx dsOf ops SNode.new [] agg_new.1 ⟨Map.noDup_nil, by intro k p h; simp at h⟩ (fun _ => agg_new.2) hds
+
+/-- **C11_aggregate_sums** — hence `PodRequests()`, `PodLimits()`, `DaemonSetRequests()`, `DaemonSetLimits()` and
+    `DisruptionCost() - 1` are the sums over that table (requests of all its pods; requests of its DaemonSet pods; positive
+    eviction costs of its non-daemon pods). -/
+theorem C11_aggregate_sums (s : SNode) (R : Map PodObj) (h : Agg s R) (hR : Map.NoDup R) :
+    sumOver s.podReq (fun e => e.2) = sumOver R (fun e => e.2.req) ∧
+    sumOver s.podLim (fun e => e.2) = sumOver R (fun e => e.2.lim) ∧
+    sumOver s.dsReq (fun e => e.2) = sumOver R (fun e => if e.2.ds then e.2.req else Res.zero) ∧
+    sumOver s.dsLim (fun e => e.2) = sumOver R (fun e => if e.2.ds then e.2.lim else Res.zero) ∧
+    (s.costs.map (·.2)).foldr (· + ·) 0 = (R.map (fun e => if !e.2.ds && decide (e.2.cost > 0) then e.2.cost else 0)).foldr (· + ·) 0 :=
+  agg_sums s R h hR
+
+/-- **C11_node_reconcile_rebuilds** — whatever the cache held before, `UpdateNode` leaves under the node's provider id a state
+    node whose table is EXACTLY the API's pods that are bound to this node and not terminal (so all its aggregates are the
+    from-scratch values at that moment). -/
+theorem C11_node_reconcile_rebuilds (fx : Fixes) (dsOf : String → Bool) (c c' : Cluster) (api : Api) (node : NodeObj)
+    (hapi : PodsOK dsOf api) (hr : c.newStateFromNode fx api node = .ok c') :
+    ∃ s R, Map.get c'.nodes node.pid = some s ∧ s.node = some node ∧ Agg s R ∧ TableOK dsOf R ∧
+      (∀ k, Map.get R k = (Map.get api.pods k).filter (onNode node.name)) ∧ (fx.volRebuild = true → VolExact s R) :=
+  newStateFromNode_rebuilds fx dsOf c c' api node hapi hr
+
+/-- **C11_claim_update_keeps_aggregates_partial** — `newStateFromNodeClaim` keeps the table of the state node it replaces,
+    PROVIDED the disruption costs are carried (`carriedC fx "podDisruptionCosts"`: the regenerated carry-over table or the
+    repair). Full strength (no proviso) is false at the pinned commit: `C11_cost_lost_witness`. -/
+theorem C11_claim_update_keeps_aggregates_partial (fx : Fixes) (claim : ClaimObj) (old : SNode) (R : Map PodObj) (h : Agg old R)
+    (hc : Cluster.carriedC fx "podDisruptionCosts" = true) :
+    Agg (Cluster.claimLiteral fx claim old) R ∧ (VolExact old R → VolExact (Cluster.claimLiteral fx claim old) R) :=
+  agg_claimLiteral fx claim old R h hc
+
+/-- **C11_pods_converge** — the full property for the per-node aggregates, for the code WITH the repairs of the recorded
+    defects (`PodFix fx`: the NodeClaim update carries the disruption costs, a state node that loses its Node drops its pod
+    aggregates, an unbound / re-bound-elsewhere pod forgets its old binding; `podFix_all : PodFix Fixes.all`):
+    for every well-formed history (any delivery order, duplicates, provider-id changes, deletions seen before updates, pods
+    recreated under the same name on another node or unbound), once every changed object has been reconciled, every state
+    node reports exactly the from-scratch values: `PodRequests()`, `PodLimits()`, `DaemonSetRequests()`, `DaemonSetLimits()`
+    = Σ over the non-terminal pods the API binds to its Node (of the DaemonSet ones), `DisruptionCost()` = 1 + Σ positive
+    eviction costs of the non-daemon ones, the host ports reserved per pod, the CSI volume limits of the Node, and a volume
+    union that contains every volume of those pods (that it contains nothing else needs the repaired `VolumeUsage.Add`:
+    `C11_aggregates_track_pods`). A state node without Node reports nothing.
+    At the pinned commit (no repair) the statement is FALSE: `C11_cost_lost_witness`, `C11_stale_pods_witness`. -/
+theorem C11_pods_converge (fx : Fixes) (hf : PodFix fx) (w : Owners) (dsOf : String → Bool) (h : List Event)
+    (hwf : WellFormed w h) (hpods : ∀ e ∈ h, podEventOK dsOf e) (hq : (ghostRun {} {} h).dirty = []) :
+    ∃ c, run fx {} {} h = .ok (c, apiRun {} h) ∧
+      ∀ pid s a, Map.get c.nodes pid = some s → absNodeAt (apiRun {} h) (ghostRun {} {} h) pid = some a →
+        sumOver s.podReq (fun e => e.2) = a.requests ∧ sumOver s.podLim (fun e => e.2) = a.limits ∧
+        sumOver s.dsReq (fun e => e.2) = a.dsRequests ∧ sumOver s.dsLim (fun e => e.2) = a.dsLimits ∧
+        costUnit + (s.costs.map (·.2)).foldr (· + ·) 0 = a.cost ∧
+        (∀ k, Map.get s.ports k = Map.get a.ports k) ∧ s.limits = a.volLimits ∧ (∀ x, x ∈ a.volumes → x ∈ s.volumes) := by
+  obtain ⟨c, o, hr, he, hi, ha, hp, hpa⟩ := run_all fx hf w dsOf h {} {} {} {} (OC.Eqv.refl _) (oinv_empty w) (apiOK_empty w)
+    (podInv_empty dsOf) ⟨Map.noDup_nil, by intro k p hg; simp at hg⟩ (fun e hm => ⟨hwf.owned e hm, hpods e hm⟩) hwf.steps
+  refine ⟨c, hr, ?_⟩
+  intro pid s a hs habs
+  obtain ⟨R, hR⟩ := hp.good pid s hs
+  rw [hq] at hR
+  have hobjs : (Map.get c.nodes pid).map SNode.objs = (absNodeAt (apiRun {} h) (ghostRun {} {} h) pid).map absObjs := by
+    rw [← get_proj, he.nodes pid]
+    exact quiescent_objects hi ha (apiND_run h {} apiND_empty) hq pid
+  rw [hs, habs] at hobjs
+  simp only [Option.map_some, Option.some.injEq] at hobjs
+  exact quiescent_pods hR hpa hobjs (absNodeAt_pods habs)
+
+/-- **C11_volumes_converge** — with the repaired `VolumeUsage.Add` as well (`fx.volRebuild`), the volume union of every state
+    node is EXACTLY the set of volumes of the non-terminal pods the API binds to its Node. -/
+theorem C11_volumes_converge (fx : Fixes) (hf : PodFix fx) (hb : fx.volRebuild = true) (w : Owners) (dsOf : String → Bool)
+    (h : List Event) (hwf : WellFormed w h) (hpods : ∀ e ∈ h, podEventOK dsOf e) (hq : (ghostRun {} {} h).dirty = []) :
+    ∃ c, run fx {} {} h = .ok (c, apiRun {} h) ∧
+      ∀ pid s a, Map.get c.nodes pid = some s → absNodeAt (apiRun {} h) (ghostRun {} {} h) pid = some a →
+        ∀ x, x ∈ s.volumes ↔ x ∈ a.volumes := by
+  obtain ⟨c, o, hr, he, hi, ha, hp, hpa⟩ := run_all fx hf w dsOf h {} {} {} {} (OC.Eqv.refl _) (oinv_empty w) (apiOK_empty w)
+    (podInv_empty dsOf) ⟨Map.noDup_nil, by intro k p hg; simp at hg⟩ (fun e hm => ⟨hwf.owned e hm, hpods e hm⟩) hwf.steps
+  have htight := allNodes_run (volTight_closed fx hb) hf volTight_nodeLiteral h {} c {} _ (by intro id s hs; simp at hs) hr
+  refine ⟨c, hr, ?_⟩
+  intro pid s a hs habs
+  obtain ⟨R, hR⟩ := hp.good pid s hs
+  rw [hq] at hR
+  have hobjs : (Map.get c.nodes pid).map SNode.objs = (absNodeAt (apiRun {} h) (ghostRun {} {} h) pid).map absObjs := by
+    rw [← get_proj, he.nodes pid]
+    exact quiescent_objects hi ha (apiND_run h {} apiND_empty) hq pid
+  rw [hs, habs] at hobjs
+  simp only [Option.map_some, Option.some.injEq] at hobjs
+  intro x
+  exact ⟨quiescent_volumes_exact hR hpa (htight pid s hs) hobjs (absNodeAt_pods habs) x,
+    (quiescent_pods hR hpa hobjs (absNodeAt_pods habs)).2.2.2.2.2.2.2 x⟩
+
+/-! ## The hypotheses are decidable; the property in one statement -/
+
+/-- **C11_wellFormed_decidable** — if the two checks the driver evaluates on a history say `true` (`wStatic`: unique provider
+    ids, immutable claim labels, named nodes, always-or-never DaemonSet pods; `wRun`: the step-wise preconditions), the history
+    is well-formed for the owners / DaemonSet assignment read off the history itself. -/
+theorem C11_wellFormed_decidable (h : List Event) (hs : wStatic h = true) (hr : wRun {} {} h = true) :
+    WellFormed (ownersOf h) h ∧ ∀ e ∈ h, podEventOK (dsOfHist h) e :=
+  ⟨⟨(owners_of_wStatic h hs).1, hr⟩, (owners_of_wStatic h hs).2⟩
+
+/-- **C11_converges_partial** — the property as far as it holds of the code AS IT IS (`fx` arbitrary, in particular
+    `Fixes.current`): for every history that passes the decidable checks, once every changed object has been reconciled,
+    the cache equals the from-scratch computation in: which state nodes exist and which Node / NodeClaim / deletion mark /
+    nomination each holds, the known claim names, and the per-NodePool resource totals.
+    Full strength adds the per-node pod aggregates — `C11_converges` (repaired code); false as it is (witnesses below). -/
+theorem C11_converges_partial (fx : Fixes) (h : List Event) (hs : wStatic h = true) (hr : wRun {} {} h = true)
+    (hq : (ghostRun {} {} h).dirty = []) :
+    ∃ c, run fx {} {} h = .ok (c, apiRun {} h) ∧
+      (∀ pid, (Map.get c.nodes pid).map SNode.objs = (absNodeAt (apiRun {} h) (ghostRun {} {} h) pid).map absObjs) ∧
+      (∀ name, Map.has c.claimNameToPid name = absClaimExists (apiRun {} h) name ∧
+               decide (Map.get c.claimNameToPid name = some "") = absClaimUnlaunched (apiRun {} h) name) ∧
+      (∀ p, Map.getD c.poolRes p Res.zero = absPoolRes (apiRun {} h) (ghostRun {} {} h) p) := by
+  have hwf := (C11_wellFormed_decidable h hs hr).1
+  obtain ⟨c, hr1, h1⟩ := C11_objects_converge fx (ownersOf h) h hwf hq
+  obtain ⟨c2, hr2, h2⟩ := C11_claim_names_converge fx (ownersOf h) h hwf hq
+  obtain ⟨c3, hr3, h3⟩ := C11_poolResources_converge fx (ownersOf h) h hwf hq
+  rw [hr1] at hr2 hr3
+  simp only [Except.ok.injEq, Prod.mk.injEq, and_true] at hr2 hr3
+  rw [← hr2] at h2
+  rw [← hr3] at h3
+  exact ⟨c, hr1, h1, h2, h3⟩
+
+/-- **C11_converges** — the property, for the code with the proposed repairs (`Fixes.all`): for every history that passes the
+    decidable checks — any order and duplication of reconcile deliveries, provider-id changes, deletions seen before
+    updates, pods recreated under the same name on another node or unbound — once every changed object has been
+    reconciled the cache equals the from-scratch computation in the objects, claim names, per-NodePool totals (as in
+    `C11_converges_partial`) AND in every per-node aggregate: requests, limits, daemonset requests/limits, disruption cost,
+    host ports, volume limits and the volume union (as sets). -/
+theorem C11_converges (h : List Event) (hs : wStatic h = true) (hr : wRun {} {} h = true)
+    (hq : (ghostRun {} {} h).dirty = []) :
+    ∃ c, run Fixes.all {} {} h = .ok (c, apiRun {} h) ∧
+      (∀ pid, (Map.get c.nodes pid).map SNode.objs = (absNodeAt (apiRun {} h) (ghostRun {} {} h) pid).map absObjs) ∧
+      (∀ p, Map.getD c.poolRes p Res.zero = absPoolRes (apiRun {} h) (ghostRun {} {} h) p) ∧
+      (∀ pid s a, Map.get c.nodes pid = some s → absNodeAt (apiRun {} h) (ghostRun {} {} h) pid = some a →
+        sumOver s.podReq (fun e => e.2) = a.requests ∧ sumOver s.podLim (fun e => e.2) = a.limits ∧
+        sumOver s.dsReq (fun e => e.2) = a.dsRequests ∧ sumOver s.dsLim (fun e => e.2) = a.dsLimits ∧
+        costUnit + (s.costs.map (·.2)).foldr (· + ·) 0 = a.cost ∧
+        (∀ k, Map.get s.ports k = Map.get a.ports k) ∧ s.limits = a.volLimits ∧ (∀ x, x ∈ s.volumes ↔ x ∈ a.volumes)) := by
+  have hd := C11_wellFormed_decidable h hs hr
+  obtain ⟨c, hr1, h1, _, h3⟩ := C11_converges_partial Fixes.all h hs hr hq
+  obtain ⟨c4, hr4, h4⟩ := C11_pods_converge Fixes.all podFix_all (ownersOf h) (dsOfHist h) h hd.1 hd.2 hq
+  obtain ⟨c5, hr5, h5⟩ := C11_volumes_converge Fixes.all podFix_all rfl (ownersOf h) (dsOfHist h) h hd.1 hd.2 hq
+  rw [hr1] at hr4 hr5
+  simp only [Except.ok.injEq, Prod.mk.injEq, and_true] at hr4 hr5
+  rw [← hr4] at h4
+  rw [← hr5] at h5
+  refine ⟨c, hr1, h1, h3, ?_⟩
+  intro pid s a hs habs
+  have := h4 pid s a hs habs
+  exact ⟨this.1, this.2.1, this.2.2.1, this.2.2.2.1, this.2.2.2.2.1, this.2.2.2.2.2.1, this.2.2.2.2.2.2.1, h5 pid s a hs habs⟩
+
+/-! ## Non-vacuity and the recorded defects as machine-checked witnesses -/
+
+def capA : Res := { cpu := 4000, mem := 8192, pods := 110 }
+def node1 (ver : Nat) : NodeObj := { name := "n1", pid := "p1", pool := "a", reg := true, init := true, it := true, cap := capA, del := false, limits := [("csi-1", some 1)], ver := ver }
+def claim1 (ver : Nat) : ClaimObj := { name := "c1", pid := "p1", pool := "a", cap := capA, del := false, term := false, managed := true, ver := ver }
+def podX (node : String) (vols : List Vol) (ver : Nat) : PodObj :=
+  { name := "x1", node := node, terminal := false, req := { cpu := 100, pods := 1 }, lim := { pods := 1 }, ds := false,
+    cost := costUnit, ports := [], vols := vols, ver := ver }
+
+instance (w : Owners) (e : Event) : Decidable (w.okEvent e) := by
+  cases e <;> simp only [Owners.okEvent, Owners.okNode, Owners.okClaim] <;> infer_instance
+
+def owners1 : Owners := { nodeOf := fun _ => "n1", claimOf := fun _ => "c1", managed := fun _ => true }
+
+/-- a history with a provider-id change, an undelivered delete+recreate and a late claim: well-formed and quiescent -/
+def hist1 : List Event :=
+  [.setNode { node1 0 with pid := "", pool := "" }, .recNode "n1", .setPod (podX "n1" [] 2), .recPod "x1",
+   .setNode (node1 4), .setClaim (claim1 5), .recClaim "c1", .recNode "n1", .mark "p1",
+   .delNode "n1", .setNode (node1 10), .recNode "n1"]
+
+example : WellFormed owners1 hist1 := ⟨by decide, by decide⟩
+example : wStatic hist1 = true ∧ wRun {} {} hist1 = true := by decide
+example : (ghostRun {} {} hist1).dirty = [] := by decide
+example : (absNodeAt (apiRun {} hist1) (ghostRun {} {} hist1) "p1").map absObjs =
+    some ⟨some (node1 10), some (claim1 5), true, false⟩ := by decide
+-- marked for deletion: the pool total is empty; after `unmark` it is the node's capacity plus one node
+example : absPoolRes (apiRun {} hist1) (ghostRun {} {} hist1) "a" = Res.zero := by decide
+example : absPoolRes (apiRun {} (hist1 ++ [.unmark "p1"])) (ghostRun {} {} (hist1 ++ [.unmark "p1"])) "a" = { capA with nodes := 1 } := by decide
+
+/-- (a) `newStateFromNodeClaim` loses the disruption costs: after a NodeClaim heartbeat the cost drops from 2 to 1 (in units
+    of 2^-27) although nothing about the pods changed; with the repair it stays 2. (The model reads the carry-over table
+    regenerated from the source; the first disjunct is the case that the source has been repaired.) -/
+def histA : List Event :=
+  [.setClaim (claim1 0), .setNode (node1 1), .setPod (podX "n1" [] 2), .recClaim "c1", .recNode "n1", .recPod "x1",
+   .setClaim (claim1 6), .recClaim "c1"]
+
+def costOf (r : M (Cluster × Api)) (pid : String) : Option Int :=
+  match r with
+  | .ok (c, _) => (Map.get c.nodes pid).map (fun s => costUnit + (s.costs.map (·.2)).foldr (· + ·) 0)
+  | .error _ => none
+
+theorem C11_cost_lost_witness :
+    newStateFromNodeClaimFields.contains "podDisruptionCosts" = true ∨
+    (costOf (run Fixes.none {} {} histA) "p1" = some costUnit ∧ costOf (run Fixes.all {} {} histA) "p1" = some (2 * costUnit)) := by
+  decide
+
+/-- (b) `VolumeUsage.Add` keeps the stale union: pod x1 with pvc-a, then x1 again (recreated under the same name) with pvc-b,
+    limit 1: the union holds both volumes and `ExceedsLimits({})` reports an excess; the table (and a fresh computation)
+    holds only pvc-b; the repaired `Add` agrees with the table. -/
+def opsB : List PodOp := [.upd (podX "n1" [("csi-1", "default/pvc-a")] 0), .upd (podX "n1" [("csi-1", "default/pvc-b")] 1)]
+
+theorem C11_volume_union_stale_witness :
+    (opsB.foldl (applyPodOp Fixes.none) SNode.new).volumes = [("csi-1", "default/pvc-a"), ("csi-1", "default/pvc-b")] ∧
+    volExceeds (opsB.foldl (applyPodOp Fixes.none) SNode.new).volumes [("csi-1", 1)] [] = true ∧
+    (opsB.foldl (applyPodOp Fixes.all) SNode.new).volumes = [("csi-1", "default/pvc-b")] ∧
+    volExceeds (opsB.foldl (applyPodOp Fixes.all) SNode.new).volumes [("csi-1", 1)] [] = false ∧
+    ((opsB.foldl tablePodOp []).map (fun e => e.2.vols)) = [[("csi-1", "default/pvc-b")]] := by decide
+
+/-- (d) + (e): pod usage that outlives its reason. `histD`: the Node is removed while its NodeClaim stays (termination): the
+    claim-only state node keeps the pod's requests, and the pod's own deletion cannot clean them. `histE`: a pod is recreated
+    under its name and is not bound yet: the node of the old incarnation keeps its requests. With the repairs both report
+    what the from-scratch computation reports (nothing). -/
+def histD : List Event :=
+  [.setClaim (claim1 0), .setNode (node1 1), .setPod (podX "n1" [] 2), .recClaim "c1", .recNode "n1", .recPod "x1",
+   .delNode "n1", .recNode "n1", .delPod "x1", .recPod "x1"]
+def histE : List Event :=
+  [.setNode (node1 0), .setPod (podX "n1" [] 1), .recNode "n1", .recPod "x1", .setPod { podX "" [] 4 with terminal := false }, .recPod "x1"]
+
+def requestsOf (r : M (Cluster × Api)) (pid : String) : Option Res :=
+  match r with
+  | .ok (c, _) => (Map.get c.nodes pid).map (fun s => sumOver s.podReq (fun e => e.2))
+  | .error _ => none
+
+theorem C11_stale_pods_witness :
+    requestsOf (run Fixes.none {} {} histD) "p1" = some { cpu := 100, pods := 1 } ∧
+    requestsOf (run Fixes.all {} {} histD) "p1" = some Res.zero ∧
+    (absNodeAt (apiRun {} histD) (ghostRun {} {} histD) "p1").map AbsNode.requests = some Res.zero ∧
+    requestsOf (run Fixes.none {} {} histE) "p1" = some { cpu := 100, pods := 1 } ∧
+    requestsOf (run Fixes.all {} {} histE) "p1" = some Res.zero ∧
+    (absNodeAt (apiRun {} histE) (ghostRun {} {} histE) "p1").map AbsNode.requests = some Res.zero := by decide
+
+-- both witnesses are well-formed, quiescent histories: the hypotheses of `C11_pods_converge` hold, only `PodFix` does not
+example : WellFormed owners1 histD ∧ (ghostRun {} {} histD).dirty = [] ∧ WellFormed owners1 histE ∧ (ghostRun {} {} histE).dirty = [] :=
+  ⟨⟨by decide, by decide⟩, by decide, ⟨by decide, by decide⟩, by decide⟩
+example : PodFix Fixes.all := podFix_all
+-- the converging run of `hist1` really has a pod on the node: requests are the pod's
+example : requestsOf (run Fixes.all {} {} hist1) "p1" = some { cpu := 100, pods := 1 } := by decide
+
+/-- (c) duplicate provider ids across two NodeClaims (excluded by `WellFormed.owned`): the second deletion dereferences the
+    state node the first one removed. -/
+def histC : List Event :=
+  [.setClaim (claim1 0), .setClaim { claim1 1 with name := "c2" }, .recClaim "c1", .recClaim "c2",
+   .delClaim "c1", .delClaim "c2", .recClaim "c1", .recClaim "c2"]
+
+theorem C11_duplicate_ids_panic : (match run Fixes.none {} {} histC with | .error _ => true | .ok _ => false) = true := by decide
+
 end Karp.C11
